@@ -148,16 +148,17 @@ Proof.
   unfold commit in Hc. rewrite app_nil_r in Hc. destruct r'; exact Hc.
 Qed.
 
-Theorem fill_RInv : forall fuel dl w w' fr, RInv (rd w) -> fill_packet_reader fuel dl w = (w', fr) ->
+Lemma fill_go_RInv : forall fuel y dl w w' fr, RInv (rd w) -> fill_go fuel y dl w = (w', fr) ->
   (forall e, fr <> FillErr e) -> RInv (rd w').
 Proof.
-  induction fuel as [|f IH]; intros dl w w' fr Hi H Hne; cbn [fill_packet_reader] in H; [inversion H; subst; exact Hi|].
+  induction fuel as [|f IH]; intros y dl w w' fr Hi H Hne; cbn [fill_go] in H; [inversion H; subst; exact Hi|].
   fold (rd w) in H. destruct (packet_available (rd w)); [inversion H; subst; exact Hi|].
   destruct (receive_buffer (rd w)) as [r' ow] eqn:Er. destruct ow as [win|]; [|inversion H; subst; exfalso; eapply Hne; reflexivity].
   destruct (receive_buffer_inv _ _ _ Hi Er) as [Hd [Hcap Hpost]].
   set (w0 := upd_sess w (set_reader (w_sess w) r')) in *.
   assert (R0 : RInv (rd w0)) by (unfold rd, w0; cbn [w_sess upd_sess set_reader s_reader]; exact (window_RInv _ _ Hpost)).
   destruct (N.eqb win 0); [inversion H; subst; exact R0|].
+  destruct (timer_fired y dl w0); [inversion H; subst; exact R0|].
   destruct (io_read win dl w0) as [w1 r] eqn:Ei.
   pose proof (io_read_sess win dl w0) as [Hs _]. rewrite Ei in Hs. cbn [fst] in Hs.
   assert (R1 : RInv (rd w1)) by (unfold rd; rewrite Hs; exact R0).
@@ -168,6 +169,9 @@ Proof.
   unfold rd. cbn [w_sess upd_sess set_reader s_reader]. rewrite Hs. unfold w0. cbn [w_sess upd_sess set_reader s_reader].
   exact (commit_inv r' win (x :: t) eq_refl Hpost Hl).
 Qed.
+Theorem fill_RInv : forall fuel dl w w' fr, RInv (rd w) -> fill_packet_reader fuel dl w = (w', fr) ->
+  (forall e, fr <> FillErr e) -> RInv (rd w').
+Proof. intros fuel dl. exact (fill_go_RInv fuel false dl). Qed.
 
 Lemma RP_drive_packet : forall fuel w, RP w (fst (drive_packet fuel w)).
 Proof. intros. unfold drive_packet. destruct (negb (w_live w)); [apply RP_refl|apply RP_drive_loop]. Qed.
